@@ -714,6 +714,17 @@ func (x *Exec) evalCall(env *Env, e *SExpr) Val {
 	case "payload":
 		v := arg(0)
 		return mathVal(v.L[len(v.L)-1])
+	case "rangepos":
+		// byte position of the current element of the (innermost) range-over-string loop
+		for k, t := range env.st.ghost {
+			if strings.HasPrefix(k, "iter!") && strings.HasSuffix(k, "!cur") {
+				_ = t
+			}
+		}
+		if t := x.rangeGhost(env.st, "!next"); t != nil {
+			return mathVal(t)
+		}
+		x.evalFail("rangepos(): no range-over-string iterator")
 	case "ghost":
 		// ghost("name"): current value of an engine ghost variable
 		key := e.Args[0].Str
@@ -868,7 +879,8 @@ func (x *Exec) applyPure(env *Env, pf *PureFunc, recv *Val, args []*SExpr) Val {
 		vars[p.Name] = v
 		argVals = append(argVals, v)
 	}
-	if pf.Abstract || pf.Rec {
+	opaque := pf.BVOnly && !x.tc.bv
+	if pf.Abstract || pf.Rec || opaque {
 		var targs []*Term
 		for _, v := range argVals {
 			if v.T != nil {
@@ -897,8 +909,11 @@ func (x *Exec) applyPure(env *Env, pf *PureFunc, recv *Val, args []*SExpr) Val {
 		if pf.Recv != nil {
 			name = "pure." + strings.TrimPrefix(pf.Recv.Type, "*") + "." + pf.Name
 		}
+		if x.tc.bv {
+			name = "pure.bv." + strings.TrimPrefix(name, "pure.")
+		}
 		app := App(name, s, targs...)
-		if pf.Rec {
+		if pf.Rec && !opaque {
 			x.E.noteRecApp(x, pf, app, argVals)
 		}
 		return mathVal(app)
